@@ -50,6 +50,7 @@ public:
 
 protected:
 	void CreateChildObjects(const Type::Ptr& childType) override;
+	void Stop(bool runtimeRemoved) override;
 
 private:
 	Host::Ptr m_Host;
